@@ -551,6 +551,96 @@ fn check_prefixed_big_append(prefix: u64, offset: u64, add: bool, st: &mut Stats
     }
 }
 
+/// An archive written by the crate whose central directory starts `below` bytes under the 4 GiB mark and whose comment has
+/// `old_comment` bytes, re-opened with new_append, the comment replaced by a 5-byte one, finished: the end structures shrink,
+/// the directory is written again further up and may cross the mark - whatever it takes (ZIP64 end records or not), the
+/// result must be read back exactly.
+fn check_append_across_4g(below: u64, old_comment: usize, add: bool, st: &mut Stats, order: u64) {
+    st.evals += 1;
+    let case = || json!({"kind": "append-across-4g", "below": below, "old_comment": old_comment, "add": add});
+    let label = format!("directory {below} bytes below 4 GiB, comment of {old_comment} bytes replaced by 5 bytes through an append round ({})", if add { "one entry added" } else { "nothing added" });
+    let size = G4 - below - 52;
+    let mut sf = SparseFile::new();
+    let zeros = Call::Write(vec![0u8; CHUNK]);
+    {
+        let mut w = W::new(&mut sf);
+        w.call(&Call::SetComment(vec![b'o'; old_comment]), &[]);
+        let r = w.call(&Call::StartFile { name: "e0".into(), opts: FOpts { large: true, ..FOpts::m(0) } }, &[]);
+        let mut e = None;
+        let done = write_zeros(&mut w, size, &zeros, &mut e);
+        let fin = w.call(&Call::Finish, &[]);
+        if !r.is_ok() || done != size || !fin.is_ok() {
+            st.viol("append-across-4g/base", format!("{label}: the base archive could not be written: {:?} {:?}", e, fin.show()), case(), order);
+            return;
+        }
+    }
+    let r = guard(|| {
+        sf.seek(SeekFrom::Start(0)).map_err(|e| e.to_string())?;
+        let mut zw = zip::ZipWriter::new_append(&mut sf).map_err(|e| format!("new_append: {e}"))?;
+        zw.set_comment("short");
+        if add {
+            zw.start_file("added", FOpts::m(0).to_zip()).map_err(|e| format!("start_file: {e}"))?;
+            zw.write_all(b"added").map_err(|e| e.to_string())?;
+        }
+        zw.finish().map(|_| ()).map_err(|e| format!("finish: {e}"))
+    });
+    match r {
+        Err(p) => {
+            st.viol(format!("append-across-4g/panic/{}", panic_site(&p)), format!("{label}: {p}"), case(), order);
+            return;
+        }
+        Ok(Err(e)) => {
+            st.viol("append-across-4g/refused", format!("{label}: {e}"), case(), order);
+            return;
+        }
+        Ok(Ok(())) => {}
+    }
+    let mut items = vec![(size, 0u16, false)];
+    if add {
+        items.push((5, 0, false));
+    }
+    // crate reader: count, sizes, comment; independent parser (lenient about the zero-filled gap the rewrite leaves)
+    let rr = guard(|| {
+        let mut ar = zip::ZipArchive::new(sf.clone()).map_err(|e| format!("open: {e}"))?;
+        let n = ar.len();
+        let c = ar.comment().to_vec();
+        let (s0, h0) = {
+            let f = ar.by_index_raw(0).map_err(|e| format!("old entry: {e}"))?;
+            (f.size(), f.header_start())
+        };
+        let last = if add {
+            let mut f = ar.by_index(n - 1).map_err(|e| format!("added entry: {e}"))?;
+            let mut v = vec![];
+            f.read_to_end(&mut v).map_err(|e| format!("added entry: {e}"))?;
+            Some(v)
+        } else {
+            None
+        };
+        Ok::<_, String>((n, c, s0, h0, last))
+    });
+    match rr {
+        Ok(Ok((n, c, s0, h0, last))) => {
+            if n != items.len() || c != b"short" || s0 != size || h0 != 0 || (add && last.as_deref() != Some(&b"added"[..])) {
+                st.viol("append-across-4g/reader", format!("{label}: afterwards the reader sees {n} entries, comment {:?}, old entry size {s0} at {h0}, added entry {:?}", crate::util::show(&c), last.map(|v| v.len())), case(), order);
+                return;
+            }
+        }
+        Ok(Err(e)) => {
+            st.viol("append-across-4g/unreadable", format!("{label}: {e}"), case(), order);
+            return;
+        }
+        Err(p) => {
+            st.viol(format!("append-across-4g/panic/{}", panic_site(&p)), format!("{label}: {p}"), case(), order);
+            return;
+        }
+    }
+    match zipparse::parse(&sf, &Opts { decode_limit: 1 << 20, ..Opts::lenient() }) {
+        Ok(p) if p.entries.len() == items.len() && p.comment == b"short" && p.entries[0].usize_ == size => st.class("append-across-4g-ok"),
+        Ok(p) => st.viol("append-across-4g/independent-parser", format!("{label}: the independent parser sees {} entries, comment {:?}", p.entries.len(), crate::util::show(&p.comment)), case(), order),
+        Err(e) => st.viol(format!("append-across-4g/independent-parser/{}", e.clause), format!("{label}: the independent parser rejects the result: {e}"), case(), order),
+    }
+}
+
 fn check_foreign(offset: u64, size: u64, force: bool, st: &mut Stats, order: u64) {
     st.evals += 1;
     let sf = foreign_big(offset, size, force);
@@ -709,6 +799,10 @@ fn check_claimed_raw_copy(claim: u64, raw_open: bool, st: &mut Stats, order: u64
 }
 
 fn replay(case: &Value, st: &mut Stats) {
+    if case["kind"] == "append-across-4g" {
+        check_append_across_4g(case["below"].as_u64().unwrap_or(30_000), case["old_comment"].as_u64().unwrap_or(60_000) as usize, case["add"].as_bool().unwrap_or(false), st, 0);
+        return;
+    }
     if case["kind"] == "prefixed-append" {
         check_prefixed_big_append(case["prefix"].as_u64().unwrap_or(0), case["offset"].as_u64().unwrap_or(0), case["add"].as_bool().unwrap_or(false), st, 0);
         return;
@@ -842,6 +936,18 @@ pub fn run(args: &Args) -> i32 {
         });
         ctx.stats.merge(s);
         ctx.bound("prefixed_big_append", json!(cases.iter().map(|c| format!("prefix {} / header offset {} / {}", c.0, c.1, if c.2 { "one entry added" } else { "nothing added" })).collect::<Vec<_>>()));
+    }
+    // an append round that moves the central directory across the 4 GiB mark (the end structures shrink, the directory is
+    // written a second time further up)
+    {
+        let cases: Vec<(u64, usize, bool)> = if thorough { vec![(30_000, 60_000, false), (30_000, 60_000, true), (100, 60_000, false), (59_000, 60_000, false), (70_000, 60_000, false)] } else { vec![(30_000, 60_000, false), (30_000, 60_000, true)] };
+        let cr = &cases;
+        let s = par_for(cases.len() as u64, 1, |t, st| {
+            let (b, c, a) = cr[t as usize];
+            check_append_across_4g(b, c, a, st, (13 << 40) + t);
+        });
+        ctx.stats.merge(s);
+        ctx.bound("append_across_4g", json!(cases.iter().map(|c| format!("directory {} below 4 GiB / old comment {} / {}", c.0, c.1, if c.2 { "one entry added" } else { "nothing added" })).collect::<Vec<_>>()));
     }
     // foreign small archives with ZIP64 values forced in every subset of {uncompressed size, compressed size, offset},
     // sizes differing (compressed payloads), block before/after other extra blocks, with and without a local ZIP64 block
